@@ -749,6 +749,13 @@ func checkClientRequestFlows(c *Ctx) {
 					}
 				}
 			}
+			// the options are passed on as given: nothing is written into them (a default page
+			// size without following the continue token would truncate every list)
+			for _, e := range pa.Effects {
+				if e.Kind == "store" && e.Addr != nil && strings.Contains(e.Addr.Key(), "opts") && e.Addr.K == "faddr" {
+					detail = "the caller's options are modified before the request (." + e.Addr.S + ")"
+				}
+			}
 			if !sawNS && detail == "" {
 				detail = "the requested namespace does not reach Request.Namespace()"
 			}
